@@ -376,43 +376,62 @@ def _evaluate_cached(scratch, inp, tag, stats):
     return rows
 
 
-def run_jobs(scratch, jobs, stats):
-    """jobs: list of (tag, input dict) -> list of row lists, computed by up to WORKERS TLC processes at a time."""
-    with concurrent.futures.ThreadPoolExecutor(max_workers=WORKERS) as ex:
+def run_jobs(scratch, jobs, stats, workers=None):
+    """jobs: list of (tag, input dict); yields the row list of each job as it becomes available (in job order), computed by up
+    to `workers` TLC processes at a time."""
+    with concurrent.futures.ThreadPoolExecutor(max_workers=workers or WORKERS) as ex:
         futs = [ex.submit(_evaluate_cached, scratch, inp, tag, stats) for tag, inp in jobs]
-        return [f.result() for f in futs]
+        for f in futs:
+            yield f.result()
 
 
 def alphabet(scratch, alpha, stats):
-    """The named alphabet of the spec: {'un': [...], 'bin': [...], 'ter': [...], 'names': [...]} (+ sizes when asked)."""
+    """The named alphabet of the spec: {'un': [...], 'bin': [...], 'ter': [...], 'names': [...], ...}."""
     return _evaluate_cached(scratch, {'mode': 'count', 'alpha': alpha, 'n': 0, 'distinct': False, 'gn': -1}, 'kinds-' + alpha, stats)[0]
 
 
-def _sliced(scratch, base, tag, parts, stats):
-    jobs = [('%s-p%d' % (tag, i), dict(base, part=i, parts=parts)) for i in range(1, parts + 1)]
-    rows = []
-    for part in run_jobs(scratch, jobs, stats):
-        rows.extend(part)
-    return rows
+def space_size(scratch, alpha, n, stats, gens=False, distinct=False):
+    """Size of ExprSeq(alpha, n) / GenShellSeq(alpha, n) as TLC counts it."""
+    r = _evaluate_cached(scratch, {'mode': 'count', 'alpha': alpha, 'n': 0 if gens else n, 'distinct': distinct, 'gn': n if gens else -1},
+                         'count-%s-%d' % (alpha, n), stats)[0]
+    return r
 
 
-def exprs_table(scratch, alpha, n, vals, stats, parts=None):
-    """Rows {e, k, tab} for every tree of ExprSeq(alpha, n) under the value set `vals`, computed by `parts` TLC processes
+def exprs_jobs(alpha, n, vals, parts):
+    """Rows {e, k, tab} for every tree of ExprSeq(alpha, n) under the value set `vals`, split over `parts` TLC processes
     (each enumerates the space and evaluates its slice)."""
-    return _sliced(scratch, {'mode': 'exprs', 'alpha': alpha, 'n': n, 'vals': vals}, '%s-%d' % (alpha, n), parts or WORKERS, stats)
+    return [('%s-%d-p%d' % (alpha, n, i), {'mode': 'exprs', 'alpha': alpha, 'n': n, 'vals': vals, 'part': i, 'parts': parts})
+            for i in range(1, parts + 1)]
 
 
-def gens_table(scratch, alpha, n, vals, stats, parts=None):
+def gens_jobs(alpha, n, vals, parts):
     """Rows {g, elt, conds, runs} for every generator shell of GenShellSeq(alpha, n)."""
-    return _sliced(scratch, {'mode': 'gens', 'alpha': alpha, 'n': n, 'vals': vals}, 'gens-%s-%d' % (alpha, n), parts or WORKERS, stats)
+    return [('gens-%s-%d-p%d' % (alpha, n, i), {'mode': 'gens', 'alpha': alpha, 'n': n, 'vals': vals, 'part': i, 'parts': parts})
+            for i in range(1, parts + 1)]
 
 
-def trees_table(scratch, trees, names, vals, stats, gens=False, chunk=2000):
-    """Rows for explicitly given trees (seeded random trees, replay)."""
-    jobs = []
-    for i in range(0, len(trees), chunk):
-        jobs.append(('trees-%d' % i, {'mode': 'gentrees' if gens else 'trees', 'trees': trees[i:i + chunk], 'names': list(names), 'vals': vals}))
-    rows = []
-    for part in run_jobs(scratch, jobs, stats):
-        rows.extend(part)
-    return rows
+def derivs_jobs(alpha, derivs, vals, gens=False, chunk=500):
+    """Rows for trees given as derivations over the spec's alphabet (seeded random larger trees)."""
+    return [('derivs-%s-%d' % (alpha, i), {'mode': 'genderivs' if gens else 'derivs', 'alpha': alpha, 'vals': vals, 'derivs': derivs[i:i + chunk]})
+            for i in range(0, len(derivs), chunk)]
+
+
+def trees_rows(scratch, trees, names, vals, stats, gens=False):
+    """Rows for explicitly given trees (replay)."""
+    inp = {'mode': 'gentrees' if gens else 'trees', 'trees': trees, 'names': list(names), 'vals': vals}
+    return _evaluate_cached(scratch, inp, 'trees', stats)
+
+
+def random_deriv(rng, A, size, nconsts=0):
+    """A random derivation with exactly `size` operator nodes over the alphabet A (kinds by arity)."""
+    if size == 0:
+        if nconsts and rng.random() < 0.25:
+            return ['C', rng.randrange(1, nconsts + 1)]
+        return ['L']
+    arities = [a for a, ks in ((1, A['un']), (2, A['bin']), (3, A['ter'])) if ks]
+    ar = rng.choice(arities)
+    kind = rng.choice({1: A['un'], 2: A['bin'], 3: A['ter']}[ar])
+    rest = size - 1
+    cuts = sorted(rng.randrange(0, rest + 1) for _ in range(ar - 1))
+    sizes = [b - a for a, b in zip([0] + cuts, cuts + [rest])]
+    return [kind] + [random_deriv(rng, A, sz, nconsts) for sz in sizes]
